@@ -196,9 +196,12 @@ def main():
             ix = object.__new__(IDX.indexer)
             ix.ubis = [np.eye(3) * g for g in range(ng)]; ix.gv = np.zeros((npk, 3)); ix.hkl_tol = Sym(tol)
             pysym.NP.INTS_AS_OBJECTS = True
+            inputs = {"S_%d_%d" % (g, k): S[g][k] for g in range(ng) for k in range(npk)}; inputs["tol"] = tol
             try:
                 with pysym.symbolize(IDX, extra=[(IDX, "cImageD11", KernelStub)]):
                     ix.fight_over_peaks()
+            except (AssertionError, IndexError, ValueError, ZeroDivisionError) as e:      # the real driver raised on this path
+                return dict(goals=[("fight_over_peaks returns normally (raised %s)" % type(e).__name__, z3.BoolVal(False))], inputs=inputs)
             finally: pysym.NP.INTS_AS_OBJECTS = False
             goals = [("one kernel call per grain", z3.BoolVal(KernelStub.calls == ng)), ("len(gas)=len(ubis)", z3.BoolVal(len(ix.gas) == ng))]
             t2 = tol * tol
@@ -225,12 +228,16 @@ def main():
             def score_and_assign(ubi, gv, tol, drlv2, labels, label):
                 n, d, l = creplay.score_and_assign(ubi, gv, tol, drlv2, labels, label); drlv2[:] = d; labels[:] = l; return n
         rng = np.random.RandomState(common.SEED + 11)
-        for trial in range(60):
+        for trial in range(64):
             ix = object.__new__(IDX.indexer); us = 4.0 + 0.02 * rng.standard_normal(ng) * (1 + trial % 3)
             if trial % 2: us = us[::-1].copy(); us[0] = 4.0 + 0.03
+            if trial >= 60: us[-1 if trial % 2 else 0] = 4.7         # a grain that indexes nothing (last / first in the list)
             x = (rng.randint(1, 4, max(npk, 4)) + 0.02 * rng.standard_normal(max(npk, 4))) / 4.0
             ix.ubis = [np.eye(3) * u for u in us]; ix.gv = np.zeros((len(x), 3)); ix.gv[:, 0] = x; ix.hkl_tol = 0.1
-            with pysym.patched((IDX, "cImageD11", K)): ix.fight_over_peaks()
+            try:
+                with pysym.patched((IDX, "cImageD11", K)): ix.fight_over_peaks()
+            except Exception as e:
+                return True, "fight_over_peaks raised %s: %s (grains u=%s, peaks x=%s)" % (type(e).__name__, e, us.tolist(), x.tolist())
             want = [int((ix.ga == g).sum()) for g in range(ng)]
             if list(ix.gas) != want: return True, "fight_over_peaks: gas=%s but labels %s give counts %s (grains u=%s, peaks x=%s)" % (list(ix.gas), ix.ga.tolist(), want, us.tolist(), x.tolist())
         return False, "driver agrees with the histogram of its labels on the confirmation family"
